@@ -15,7 +15,10 @@ use crate::ssnk::*;
 use crate::sym::{any, assume};
 use crate::{cov, harness};
 
-const R: usize = 14;
+/// retry bound of the caller loops (see h_push.rs): scripted pendings + 2
+const fn r(n: usize, sinks: usize) -> usize {
+    2 * n * sinks + 2
+}
 fn items3() -> [u8; 3] {
     [any(), any(), any()]
 }
@@ -29,13 +32,13 @@ fn seq_of<T: Copy + Default + PartialEq>(xs: &[T]) -> Seq<T> {
     s
 }
 
-harness!(c14_map_filter_inspect, 16, {
+harness!(c14_map_filter_inspect, 10, {
     let xs = items3();
     let mut d = SSnk::<u8, 3>::sym();
     let seen = Cell::new(0u8);
     {
         let s = SinkBuilder::<u8>::new().map(|x: u8| x.wrapping_add(7)).filter(|x: &u8| x & 1 == 0).inspect(|_x: &u8| seen.set(seen.get() + 1)).send_to(&mut d);
-        sfeed(pin!(s).as_mut(), &xs, R, true);
+        sfeed(pin!(s).as_mut(), &xs, r(3, 1), true);
     }
     let mut w = Seq::new();
     for x in xs {
@@ -49,12 +52,12 @@ harness!(c14_map_filter_inspect, 16, {
     assert!(seen.get() as usize == w.len, "C14 inspect not called once per delivered item");
     cov!(w.len == 2 && d.ready_pendings_seen >= 1 && d.flush_pendings_seen >= 1, "two delivered with pendings");
 });
-harness!(c14_filter_map, 16, {
+harness!(c14_filter_map, 10, {
     let xs = items3();
     let mut d = SSnk::<u8, 3>::sym();
     {
         let s = SinkBuilder::<u8>::new().filter_map(|x: u8| if x >= 100 { Some(x - 100) } else { None }).send_to(&mut d);
-        sfeed(pin!(s).as_mut(), &xs, R, false);
+        sfeed(pin!(s).as_mut(), &xs, r(3, 1), false);
     }
     let mut w = Seq::new();
     for x in xs {
@@ -66,13 +69,12 @@ harness!(c14_filter_map, 16, {
     assert!(d.flushed_after_last_send, "C14 flush completed but the downstream was not flushed after its last item");
     cov!(w.len == 1, "one passes");
 });
-//@ heavy=1
-harness!(c14_flat_map, 16, {
+fn sflat_map_check<const N: usize>() {
     let xs: [u8; 2] = [any(), any()];
-    let mut d = SSnk::<u8, 3>::sym();
+    let mut d = SSnk::<u8, N>::sym();
     {
         let s = SinkBuilder::<u8>::new().flat_map(|x: u8| (0..(x % 3)).map(move |j| x.wrapping_add(j))).send_to(&mut d);
-        sfeed(pin!(s).as_mut(), &xs, R, true);
+        sfeed(pin!(s).as_mut(), &xs, r(N, 1), true);
     }
     let mut w = Seq::new();
     for x in xs {
@@ -84,24 +86,31 @@ harness!(c14_flat_map, 16, {
     }
     d.check(&w);
     cov!(w.len == 4 && d.ready_pendings_seen >= 2, "four outputs across two pendings");
-});
+}
 //@ heavy=1
-harness!(c14_flatten, 16, {
+harness!(c14_flat_map, 8, { sflat_map_check::<2>(); });
+//@ heavy=1 tier=thorough
+harness!(c14_flat_map_3, 10, { sflat_map_check::<3>(); });
+fn sflatten_check<const N: usize>() {
     let xs: [[u8; 2]; 2] = [[any(), any()], [any(), any()]];
-    let mut d = SSnk::<u8, 3>::sym();
+    let mut d = SSnk::<u8, N>::sym();
     {
         let s = SinkBuilder::<[u8; 2]>::new().flatten::<[u8; 2]>().send_to(&mut d);
-        sfeed(pin!(s).as_mut(), &xs, R, true);
+        sfeed(pin!(s).as_mut(), &xs, r(N, 1), true);
     }
     d.check(&seq_of(&[xs[0][0], xs[0][1], xs[1][0], xs[1][1]]));
     cov!(d.ready_pendings_seen >= 2, "two pendings");
-});
-harness!(c14_unzip, 16, {
+}
+//@ heavy=1
+harness!(c14_flatten, 8, { sflatten_check::<2>(); });
+//@ heavy=1 tier=thorough
+harness!(c14_flatten_3, 10, { sflatten_check::<3>(); });
+harness!(c14_unzip, 12, {
     let xs: [(u8, u16); 2] = [(any(), any()), (any(), any())];
     let (mut a, mut b) = (SSnk::<u8, 2>::sym(), SSnk::<u16, 2>::sym());
     {
         let s = SinkBuilder::<(u8, u16)>::new().unzip(&mut a, &mut b);
-        sfeed(pin!(s).as_mut(), &xs, R, true);
+        sfeed(pin!(s).as_mut(), &xs, r(2, 2), true);
     }
     a.check(&seq_of(&[xs[0].0, xs[1].0]));
     b.check(&seq_of(&[xs[0].1, xs[1].1]));
@@ -115,7 +124,7 @@ harness!(c14_demux_var, 16, {
     let (mut a, mut b, mut c) = (SSnk::<u8, 2>::sym(), SSnk::<u8, 2>::sym(), SSnk::<u8, 2>::sym());
     {
         let s = SinkBuilder::<(usize, u8)>::new().demux_var::<_, u8, Infallible>((&mut a, (&mut b, (&mut c, ()))));
-        sfeed(pin!(s).as_mut(), &xs, R + 6, true);
+        sfeed(pin!(s).as_mut(), &xs, r(2, 3), true);
     }
     let mut w = [Seq::<u8>::new(), Seq::new(), Seq::new()];
     for (i, x) in xs {
@@ -156,7 +165,7 @@ fn poll_n<F: Future>(mut f: Pin<&mut F>, n: usize) -> Option<F::Output> {
     }
     None
 }
-harness!(c14_send_iter, 16, {
+harness!(c14_send_iter, 10, {
     let xs = items3();
     let mut d = SSnk::<u8, 3>::sym();
     {
@@ -171,13 +180,13 @@ harness!(c14_send_iter, 16, {
 
 // ---------------------------------------------------------------------------------- lazy sink
 /// init future: `pend` Pending answers, then Ready(Ok(sink)); counts polls
-struct Init<'a> {
+struct Init<'a, const N: usize> {
     pend: u8,
-    sink: Option<&'a mut SSnk<u8, 3>>,
+    sink: Option<&'a mut SSnk<u8, N>>,
     polls: &'a Cell<u8>,
 }
-impl<'a> Future for Init<'a> {
-    type Output = Result<&'a mut SSnk<u8, 3>, Infallible>;
+impl<'a, const N: usize> Future for Init<'a, N> {
+    type Output = Result<&'a mut SSnk<u8, N>, Infallible>;
     fn poll(self: Pin<&mut Self>, _cx: &mut Context<'_>) -> Poll<Self::Output> {
         let this = self.get_mut();
         this.polls.set(this.polls.get() + 1);
@@ -189,28 +198,32 @@ impl<'a> Future for Init<'a> {
         }
     }
 }
-//@ heavy=1
-harness!(c14_lazy_sink, 16, {
+/// NI = max items, N = scripted pendings per poll kind of the inner sink, NP = max pendings of the init future
+fn lazy_check<const NI: usize, const N: usize, const NP: u8>() {
     let n: usize = any();
-    assume(n <= 3);
+    assume(n <= NI);
     let xs = items3();
     let pend: u8 = any();
-    assume(pend <= 2);
-    let mut d = SSnk::<u8, 3>::sym();
+    assume(pend <= NP);
+    let mut d = SSnk::<u8, N>::sym();
     let created = Cell::new(0u8);
     let polls = Cell::new(0u8);
     {
         let dref = &mut d;
         let lazy = LazySink::<_, _, _, u8>::new(|| {
             created.set(created.get() + 1);
-            Init { pend, sink: Some(dref), polls: &polls }
+            Init::<N> { pend, sink: Some(dref), polls: &polls }
         });
-        sfeed(pin!(lazy).as_mut(), &xs[..n], R, true);
+        sfeed(pin!(lazy).as_mut(), &xs[..n], r(N, 1) + NP as usize, true);
     }
     assert!(created.get() <= 1, "C14 lazy sink initialised more than once");
     assert!((created.get() == 1) == (n > 0), "C14 lazy sink initialised although nothing was sent (or not initialised although something was)");
     d.check(&seq_of(&xs[..n]));
     assert!(n == 0 || d.closed, "C14 lazy sink: inner sink not closed");
-    cov!(n == 3 && pend == 2 && d.ready_pendings_seen >= 1, "first item buffered across a pending init and a pending ready");
+    cov!(n == NI && pend == NP && d.ready_pendings_seen >= 1, "first item buffered across a pending init and a pending ready");
     cov!(n == 0, "nothing sent: never initialised");
-});
+}
+//@ heavy=1
+harness!(c14_lazy_sink, 9, { lazy_check::<2, 2, 1>(); });
+//@ heavy=1 tier=thorough
+harness!(c14_lazy_sink_3, 12, { lazy_check::<3, 3, 2>(); });
